@@ -185,12 +185,14 @@ theorem errors_iff (fuel : Nat) (env : Env) (e : Expr) (err : Err)
 theorem no_panic (env : Env) (e : Expr) (hwf : WF e = true) : (evalArith env e).1 ≠ .panic :=
   no_panic_core env e hwf
 
-/-- … but the parser also produces `++x++` = `++(x++)`, on which it does
-    (C20-preinc-postinc-panic). -/
-theorem parser_output_panics :
+/-- The parser also produces `++x++` = `++(x++)` (C20-preinc-postinc-panic, fixed in /repo by the
+    `nodeLit` check): it is no longer a Go panic but the error "unsupported assignment target";
+    bash reports an error too. -/
+theorem parser_output_unsupported_target :
     parseArith [.sym .addAdd, .word nx, .sym .addAdd] =
       some (.unary .inc false (.unary .inc true (.word nx))) ∧
-    (evalArith (envOf []) (.unary .inc false (.unary .inc true (.word nx)))).1 = .panic := by
+    (evalArith (envOf []) (.unary .inc false (.unary .inc true (.word nx)))).1 =
+      .err .unsupTarget := by
   decide
 
 /-! ## atoi_spec -/
